@@ -1242,7 +1242,8 @@ class MultiReader(IndexReader):
 
     def vector(self, docnum, fieldname, format_=None):
         segmentnum, segmentdoc = self._segment_and_docnum(docnum)
-        return self.readers[segmentnum].vector(segmentdoc, fieldname)
+        return self.readers[segmentnum].vector(segmentdoc, fieldname,
+                                               format_=format_)
 
     def vector_as(self, astype, docnum, fieldname):
         segmentnum, segmentdoc = self._segment_and_docnum(docnum)
